@@ -98,6 +98,8 @@ def binding(rep, tier, sd, wd):
 
 
 def _e2e_job(job):
+    if job[0] == 'probe':
+        return [getattr(accdrv, job[1])(job[2])]
     return accdrv.custom_worker(job[1]) if job[0] == 'cu' else accdrv.c12_worker(job[1])
 
 
@@ -108,7 +110,9 @@ def end_to_end(rep, accs, tier, sd, wd):
     rounds = 1 if q else 2
     idxs = list(range(n * rounds))
     fullset = set() if q else {0, n // 2, n + 5}
-    jobs = []
+    jobs = [('probe', name, os.path.join(wd, name)) for name in ('probe_dec_counter_zero', 'probe_short_pulse', 'probe_short_gap')]
+    for j in jobs:
+        os.makedirs(j[2], exist_ok=True)
     # full-product tapes first so that they do not end up at the tail of the schedule
     for i in sorted(fullset):
         jobs.append(('cu', (sd * 977 + 500 + i, [i], tier, wd, fullset)))
@@ -122,8 +126,8 @@ def end_to_end(rep, accs, tier, sd, wd):
         jobs.append(('b', (sd * 389 + k, nb, tier, wd)))
     with mp.get_context('fork').Pool(16) as pool:
         parts = pool.map(_e2e_job, jobs, chunksize=1)
-    cases = [c for p in parts for c in p]
-    probes = [accdrv.probe_dec_counter_zero(wd), accdrv.probe_short_pulse(wd)]
+    cases = [c for p in parts for c in p if not c['key'].startswith('probe/')]
+    probes = [c for p in parts for c in p if c['key'].startswith('probe/')]
     live = []
     notload = []
     for c in cases:
@@ -183,6 +187,12 @@ def end_to_end(rep, accs, tier, sd, wd):
         u = c['runs'][int(ri) - 1]
         lead = [v for v in c['runs'] if v['cls'] == u['cls']][0]
         kind = c['key'].split('/dly')[0] if c['key'].startswith('custom/') else c['key']
+        if kind == 'probe/short-gap':
+            # not counted as a violation: the lead decides whether "pause=0/1 identical" is meant for tapes without gaps
+            rep.drift += 1
+            rep.extra['short_gap_observation'] = ('tape %s: [%s] vs [%s]: %s differs (R %d/%d T %d/%d); the tape loads in both'
+                                                  % (c['gen']['how'], u['cfg'], lead['cfg'], cl, u['r'], lead['r'], u['t'], lead['t']))
+            continue
         slim = dict(c)
         slim['runs'] = [{k: v for k, v in x.items() if k != 'pages'} for x in (c['runs'][0], lead, u)]
         rep.violation('e2e:%s:%s:%s' % (kind, cl, u['cfg']),
@@ -204,6 +214,12 @@ def run(tier):
     accs = accdrv.export_accelerators()
     if len(accs) < 30:
         raise MachineryError('only %d accelerators exported' % len(accs))
+    for cfg in ('TapeDeck_p0.cfg', 'TapeDeck_p1.cfg'):
+        r = tlc.model_check('load', 'TapeDeckMC', cfg, timeout=600, coverage=False)
+        rep.add_tlc(r, cfg.replace('.cfg', ''))
+        rep.model_violation(r, cfg.replace('.cfg', ''))
+        if r.distinct < 1000:
+            raise MachineryError('TapeDeck model: only %d states' % r.distinct)
     obligations(rep, accs, tier, sd, wd)
     binding(rep, tier, sd, wd)
     end_to_end(rep, accs, tier, sd, wd)
